@@ -2,7 +2,9 @@ package lib
 
 import (
 	"bytes"
+	"crypto/sha1" //nolint:gosec // htpasswd {SHA} scheme
 	"crypto/sha256"
+	"encoding/base64"
 	"encoding/binary"
 	"encoding/hex"
 	"fmt"
@@ -163,4 +165,10 @@ func SizeClassName(n int) string {
 	default:
 		return ">2M"
 	}
+}
+
+// Sha1Base64 is base64(sha1(s)): the htpasswd {SHA} scheme.
+func Sha1Base64(s string) string {
+	d := sha1.Sum([]byte(s)) //nolint:gosec
+	return base64.StdEncoding.EncodeToString(d[:])
 }
